@@ -12,6 +12,7 @@ RULE = ("plans: message kind (HTTP CONNECT head, SOCKS5 greeting/auth/request in
         "RPFM frames on an inline UDP-over-HTTP stream) x delivery (every cut set for messages <= 12 bytes in thorough, random cut sets, one byte at a time, glued "
         "with trailing payload, two frames per segment, frame spanning k segments) or truncation at every offset followed by EOF; each cut tunnel runs next to an "
         "uncut twin; non-trivial = at least one cut fell strictly inside a message; distinct = (kind, cut set) x event-order hash")
+RULE_MORE = "Later additions: IPv6 destinations and every BND.ADDR type; frames glued behind the CONNECT head and (kind up-rpfm) behind an upstream's 200; multi-byte SOCKS4 user ids."
 LEVEL_TEXT = ("seeded exploration plus enumeration of short cut sets against the real decoders inside the real listeners/connectors: the cut tunnel must behave "
               "exactly like its uncut twin (same upstream request bytes, same payload delivered, same datagrams), and a message truncated by EOF must never "
               "cause an upstream contact or an emitted frame")
